@@ -135,3 +135,40 @@ def glyphset(rng, nmin=3, nmax=7, max_depth=3, palette=PALETTE, kinds=None, anch
 
 def subset(rng, names, p=0.5):
     return sorted(n for n in names if rng.random() < p)
+
+
+def perturb_master(rng, glyphs, palette=PALETTE, change_2x2=0.15, drop=0.0):
+    """A point-compatible second master: same structure, moved points / offsets / widths.
+    With probability `change_2x2` one component gets a different 2x2 (incompatible for TrueType).
+    With probability `drop` per glyph the glyph is left out (sparse master)."""
+    import copy
+
+    for _ in range(100):
+        out = {}
+        for name, g in glyphs.items():
+            if drop and rng.random() < drop and g["cs"]:
+                continue
+            h = copy.deepcopy(g)
+            for c in h["cs"]:
+                for p in c:
+                    p[0] += rng.randint(-40, 40) * Q
+                    p[1] += rng.randint(-40, 40) * Q
+            for c in h["comps"]:
+                c["d"][0] += rng.randint(-40, 40) * Q
+                c["d"][1] += rng.randint(-40, 40) * Q
+                if rng.random() < change_2x2:
+                    # keep the orientation: a component mirrored in one master only is not a compatible family
+                    sign = (c["m"][0] * c["m"][3] - c["m"][1] * c["m"][2]) > 0
+                    same = [m for m in palette if ((m[0] * m[3] - m[1] * m[2]) > 0) == sign]
+                    c["m"] = list(rng.choice(same))
+            for a in h["anchors"]:
+                a["x"] += rng.randint(-40, 40) * Q
+                a["y"] += rng.randint(-40, 40) * Q
+            h["w"] = max(0, h["w"] + rng.randint(-80, 80) * Q)
+            out[name] = h
+        try:
+            check_exact_domain(out)
+        except Inexact:
+            continue
+        return out
+    raise RuntimeError("could not perturb")
